@@ -86,6 +86,7 @@ func (e *Enc) execCall(fr *Frame, c *ssa.CallCommon, instr ssa.Instruction, cur 
 	}
 	if fv.Ext || e.mods.dynPure(fr.fn, c.Value) {
 		e.note("dynamic call of " + name + " treated as external: arbitrary result, no effect on module state")
+		e.callSiteAsserts(fr, "dyn:"+name, args, cur, pos)
 		e.countCall(cur, "dyn:"+name, args)
 		r := e.freshResult(resType, cur, "dyn_"+sanitize(name))
 		e.recordRet(cur, "dyn:"+name, r)
@@ -156,6 +157,12 @@ func (e *Enc) recordRet(cur *pathState, name string, res Val) {
 			continue
 		}
 		e.set(cur.st, rc, v.T)
+		// firstret(f, i): value returned by the first direct call of f in this activation
+		fc1 := e.comp(fmt.Sprintf("firstret%d_%s", i, sanitize(name)), v.S, "ghost", "G:calls:"+name)
+		if fc1.Sort == v.S {
+			cc := e.comp("calls_"+sanitize(name), "Int", "ghost", "G:calls:"+name)
+			e.set(cur.st, fc1, ite(eq(e.get(cur.st, cc), "(+ "+cc.Name+".0 1)"), v.T, e.get(cur.st, fc1)))
+		}
 		if v.S == "Int" && i == 0 {
 			// countret(f, x): how many direct calls of f returned x
 			cc := e.comp("retcount_"+sanitize(name), "(Array Int Int)", "ghost", "G:calls:"+name)
@@ -373,6 +380,7 @@ func (e *Enc) execStatic0(fr *Frame, callee *ssa.Function, args []Val, binds []V
 	}
 	if !inModule(path) {
 		// external
+		e.callSiteAsserts(fr, callee.Name(), args, cur, pos)
 		e.countCall(cur, name, args)
 		if e.inertCallee(full) {
 			return e.freshResult(resType, cur, "ext")
@@ -407,6 +415,8 @@ func (e *Enc) execStatic0(fr *Frame, callee *ssa.Function, args []Val, binds []V
 		ms.Top = true
 	}
 	before := cur.st.clone()
+	e.curCallees = []*ssa.Function{callee}
+	defer func() { e.curCallees = nil }()
 	e.havocMods(fr, cur.st, ms, false)
 	e.allocMonotone(before, cur.st)
 	e.clockMonotone(before, cur.st)
@@ -483,6 +493,11 @@ func (e *Enc) inlineCall(fr *Frame, callee *ssa.Function, args []Val, binds []Va
 	nf := e.newFrame(callee, fr)
 	nf.params = args
 	nf.binds = binds
+	if e.inlineCount == nil {
+		e.inlineCount = map[string]int{}
+	}
+	e.inlineCount[nf.name]++
+	nf.inlineOrd = e.inlineCount[nf.name]
 	exit, results, ok := e.runFunction(nf, *cur)
 	if !ok {
 		return e.freshResult(resType, cur, "inl")
@@ -533,7 +548,7 @@ func (e *Enc) callSiteAsserts(fr *Frame, callee string, args []Val, cur *pathSta
 }
 
 func calleeMatches(pat, name string) bool {
-	if pat == name {
+	if pat == name || "dyn:"+pat == name {
 		return true
 	}
 	// allow bare method name: sendGraft matches (*GossipSubRouter).sendGraft
@@ -587,13 +602,19 @@ func (e *Enc) execInvoke0(fr *Frame, c *ssa.CallCommon, recv Val, args []Val, re
 	named, _ := it.(*types.Named)
 	if named != nil && named.Obj().Pkg() != nil && inModule(named.Obj().Pkg().Path()) {
 		ms := newModSet()
+		e.curCallees = nil
 		for _, impl := range e.mods.implsOf(named, m) {
+			e.curCallees = append(e.curCallees, impl)
 			if o := e.mods.of(impl); o != nil {
 				ms.union(o)
+				if o.Top {
+					ms.Top = true
+				}
 			}
 		}
 		before := cur.st.clone()
 		e.havocMods(fr, cur.st, ms, false)
+		e.curCallees = nil
 		e.allocMonotone(before, cur.st)
 		e.clockMonotone(before, cur.st)
 		e.note("interface call " + key + " without contract: state written by any in-module implementation is havocked; out-of-module implementations assumed not to touch module state")
@@ -656,7 +677,9 @@ func (e *Enc) contractCallSig(fr *Frame, fc *FuncContract, callee *ssa.Function,
 		// the contract does not (verifiably) bound the callee's writes: fall back to the
 		// body-derived mod-set of the callee (or of all implementations for interfaces)
 		ms := newModSet()
+		e.curCallees = nil
 		if callee != nil {
+			e.curCallees = []*ssa.Function{callee}
 			if o := e.mods.of(callee); o != nil {
 				ms.union(o)
 				ms.Top = o.Top
@@ -665,6 +688,7 @@ func (e *Enc) contractCallSig(fr *Frame, fc *FuncContract, callee *ssa.Function,
 			}
 		} else if ifaceNamed != nil {
 			for _, impl := range e.mods.implsOf(ifaceNamed, ifaceMethod) {
+				e.curCallees = append(e.curCallees, impl)
 				if o := e.mods.of(impl); o != nil {
 					ms.union(o)
 					if o.Top {
@@ -674,6 +698,7 @@ func (e *Enc) contractCallSig(fr *Frame, fc *FuncContract, callee *ssa.Function,
 			}
 		}
 		e.havocMods(fr, post, ms, false)
+		e.curCallees = nil
 	}
 	e.applyModifies(fc, env, callee, pre, post)
 	e.allocMonotone(pre, post)
@@ -757,7 +782,7 @@ func (e *Enc) contractEnv(fc *FuncContract, callee *ssa.Function, sig *types.Sig
 func mentionsCallGhosts(x SExpr) bool {
 	switch n := x.(type) {
 	case *SCall:
-		if n.Fn == "calls" || n.Fn == "lastret" || n.Fn == "lastarg" || n.Fn == "countret" || n.Fn == "countrecv" || n.Fn == "recvs" {
+		if n.Fn == "calls" || n.Fn == "lastret" || n.Fn == "lastarg" || n.Fn == "firstret" || n.Fn == "countret" || n.Fn == "countrecv" || n.Fn == "recvs" {
 			return true
 		}
 		for _, a := range n.Args {
